@@ -223,9 +223,8 @@ def r4_ranges(chk):
     o, f2 = ci.find_method('genOctetStringSubType')
     chk.subject(f1, 'genIntegerSubType')
     chk.subject(f2, 'genOctetStringSubType')
-    d1 = renamed_dump(f1, {'ranges': 'L', 'ran': 'R', 'range': 'K'})
-    d2 = renamed_dump(f2, {'sizes': 'L', 'size': 'R'})
-    d2 = d2.replace("value='R'", "value='K'")
+    d1 = '\n'.join(common.canon_text(s) for s in f1.body).replace("'range'", "'K'")
+    d2 = '\n'.join(common.canon_text(s) for s in f2.body).replace("'size'", "'K'")
     chk.ob('C05.R4', 'range/size-handlers-agree', d1 == d2, where(mod, f2),
            'the two constraint handlers differ beyond their key names')
     for fn, key in ((f1, 'range'), (f2, 'size')):
@@ -414,8 +413,12 @@ def r8_defval(chk):
     o, fn = ci.find_method('genDefVal')
     chk.subject(fn, 'IntermediateCodeGen.genDefVal')
     tests = [norm(n.test) for n in walk_no_nested(fn) if isinstance(n, ast.If)]
-    need = {'number': 'isinstance(defval, (int, long))', 'hex': 'self.isHex(defval)', 'binary': 'self.isBinary(defval)',
-            'quoted string': "defval[0] == defval[-1] and defval[0] == '\"'"}
+    dp = fn.args.args[1].arg
+    b = common.pfind([s for s in fn.body if isinstance(s, ast.Assign)], '$dv = %s[0]' % dp)
+    dv = b['dv'] if b else 'defval'
+    need = {'number': 'isinstance(%s, (int, long))' % dv, 'hex': 'self.isHex(%s)' % dv,
+            'binary': 'self.isBinary(%s)' % dv,
+            'quoted string': "%s[0] == %s[-1] and %s[0] == '\"'" % (dv, dv, dv)}
     for k, t in sorted(need.items()):
         chk.ob('C05.R8', 'genDefVal/branch-%s' % k.replace(' ', '-'), t in tests, where(mod, fn),
                'no branch for DEFVAL written as %s' % k)
@@ -454,13 +457,16 @@ def r8_defval(chk):
             if isinstance(v, ast.Name) and v.id == fn.args.args[1].arg:
                 continue  # first pass: raw value handed back for the second pass
             ok = isinstance(v, ast.Dict) and len(v.keys) == 1 and v.keys[0].value == 'default'
-            chk.ob('C05.R8', 'genDefVal/return-shape %s' % norm(v)[:30], ok, where(mod, x),
+            chk.ob('C05.R8', 'genDefVal/return-shape %s' % ('bare-record' if isinstance(v, ast.Name) else norm(v)[:30]),
+                   ok, where(mod, x),
                    'this path returns %s while the other notations return {"default": record}: the consumer reads '
                    'a member that does not exist' % norm(v)[:40])
     # genObjectType stores it under 'default' when non-empty
     o2, got = ci.find_method('genObjectType')
-    ok = any(isinstance(s, ast.Assign) and norm(s) == "defval = self.genDefVal(defval, objname=name)"
-             for s in walk_no_nested(got))
+    un_ = [a.id for s in got.body if isinstance(s, ast.Assign) and isinstance(s.targets[0], ast.Tuple) and
+           _key_is(s.value, got.args.args[1].arg) for a in s.targets[0].elts]
+    ok = len(un_) == 11 and any(isinstance(s, ast.Assign) and norm(s) == "%s = self.genDefVal(%s, objname=%s)" % (
+        un_[9], un_[9], un_[0]) for s in walk_no_nested(got))
     chk.ob('C05.R8', 'genObjectType/defval-plumbing', ok, where(mod, got), 'genDefVal(defval, objname=name) expected')
 
 
